@@ -91,6 +91,17 @@ func (p *Program) replay(prop string, obls []*Obligation, opts checkOpts, dir st
 		for k, v := range o.Hints {
 			rf.Hints[k] = v
 		}
+		// a builder literal that also writes another language's variable: replay the ordered first use
+		if k := strings.Index(o.Name, "$writes("); k >= 0 {
+			rest := strings.ToLower(o.Name[k:])
+			for i, n := range p.langNamesLower() {
+				if strings.HasPrefix(rest, "$writes("+n+"mapping") {
+					rf.Hints["hist.second"] = fmt.Sprint(i)
+				} else if strings.Contains(rest, "/"+n+"mapping") {
+					rf.Hints["hist.first"] = fmt.Sprint(i)
+				}
+			}
+		}
 		// a discipline obligation about a <language>Mapping variable: stress that language
 		for i, n := range p.langNamesLower() {
 			if strings.Contains(strings.ToLower(o.Name), "/"+n+"mapping") {
